@@ -196,6 +196,76 @@ def random_cases(ctx, rng, n, every_module_path=True):
     return cases
 
 
+
+def _scanned_rule_case(case):
+    """scan a generated tree and evaluate rules that ask about 'sub modules of X' / 'X and its descendants' on the real
+    evaluable; the expected verdicts follow from the scanned import set and DOTTED-name extension alone"""
+    import random as _random
+
+    from ..impl import Rule, err_kind, get_evaluable_architecture, graph_snapshot
+
+    tree, root, mp, seed = case["tree"], case["root"], case["mp"], case["seed"]
+    rng = _random.Random(seed)
+    out = []
+    with sc.write_project(tree) as proj:
+        try:
+            ev = get_evaluable_architecture(proj.path(root), proj.path(mp))
+        except Exception as e:  # noqa: BLE001
+            return [("SCANERR", err_kind(e), None, None)]
+        nodes, imps, _ = graph_snapshot(ev)
+        nodes = sorted(nodes)
+        desc = lambda x, n: n == x or n.startswith(x + ".")  # noqa: E731
+        parents = [x for x in nodes if any(n.startswith(x + ".") for n in nodes)]
+        for _ in range(4):
+            if not parents:
+                break
+            x = rng.choice(parents)
+            others = [y for y in nodes if not desc(x, y) and not desc(y, x)]
+            if not others:
+                continue
+            y = rng.choice(others)
+            into_sub = any(desc(y, u) and v != x and desc(x, v) for u, v in imps)       # y.. -> strict descendants of x
+            into_all = any(desc(y, u) and desc(x, v) for u, v in imps)                  # y.. -> x or below
+            rules = [
+                ("not-import-sub", lambda: Rule().modules_that().are_named(y).should_not().import_modules_that().are_sub_modules_of(x), not into_sub),
+                ("sub-not-imported-by", lambda: Rule().modules_that().are_sub_modules_of(x).should_not().be_imported_by_modules_that().are_named(y), not into_sub),
+                ("import-named", lambda: Rule().modules_that().are_named(y).should().import_modules_that().are_named(x), into_all),
+            ]
+            for name, mk, expect_pass in rules:
+                try:
+                    mk().assert_applies(ev)
+                    got = "PASS"
+                except AssertionError:
+                    got = "FAIL"
+                except Exception as e:  # noqa: BLE001
+                    got = "ERR:" + err_kind(e)
+                out.append((name, got, "PASS" if expect_pass else "FAIL", (x, y)))
+    return out
+
+
+def scanned_rule_stream(ctx, stream, n):
+    rng = ctx.rng("scanned-rules")
+    cases = []
+    for _ in range(n):
+        tree = sc.gen_tree(rng, comps=["a", "ab", "a_b", "util", "utils", "core", "core_x", "m", "py", "pyx"], max_depth=4)
+        sc.fill_sources(rng, tree, externals=False)
+        cases.append({"tree": tree, "root": "proj", "mp": "proj", "seed": rng.randrange(1 << 30)})
+    res = pmap(_scanned_rule_case, cases, ctx.jobs, chunk=10)
+    for case, outs in zip(cases, res):
+        for name, got, want, xy in outs:
+            stream.evaluations += 1
+            stream.count(name + ":" + got.split(":")[0])
+            if name == "SCANERR":
+                continue
+            stream.nontrivial.add(digest((sorted(case["tree"]), xy, name)))
+            if got != want:
+                ctx.violations.append({"kind": "property-violation",
+                                       "what": f"on a scanned architecture the rule '{name}' for (X, Y) = {xy} gives {got}; dotted-name extension of the scanned modules and the scanned imports give {want}",
+                                       "files": dict(case["tree"]), "module_path": case["mp"]})
+                if len(ctx.violations) >= 3:
+                    return
+
+
 def _parent_relative_case(case):
     treeA, treeB, mp = case
     with sc.write_project(treeA) as pa:
@@ -283,6 +353,10 @@ def run(ctx: Ctx, aspect="C02"):
 
         s = Stream(ctx, "non-default options: internal imports under externals included / external exclusion patterns (relational)")
         c10.stream_cases(ctx, s, ctx.size(300, 3000), ctx.rng("c02-options"))
+        s.finish()
+    if aspect == "C04" and not ctx.violations:
+        s = Stream(ctx, "rules about 'sub modules of X' evaluated on scanned architectures (sub modules = dotted extensions)")
+        scanned_rule_stream(ctx, s, ctx.size(400, 4000))
         s.finish()
     if aspect == "C04" and not ctx.violations:
         s = Stream(ctx, "sub-scans: imports spelled relative to module_path's parent vs fully qualified (repeated directory names)")
